@@ -74,6 +74,30 @@ def check_c_loads(rep):
                     key='M-ENDDIST-C|%s|%d' % (fn, n), sample='%s: %d-byte read at <= end%+d' % (fn, W, d) if d is not None else None)
         if n < 2:
             raise AnalysisBroken('%s: expected the position and hash-update reads, found %d' % (fn, n))
+    # compare258 itself reads up to max_length bytes at its second argument
+    RC = rep.rule('M-COMPARE-BOUND', 'every compare258(str1, str2, max_length) call of the portable match finders reads at most up to the end of the input: max_length is the constant 258 under a dominating look-ahead '
+                  'margin (covered by M-ENDDIST-C), or it is computed as end - str2 for the VERY pointer passed as str2 (pointer difference whose subtrahend is that argument): a bound taken from another pointer (the '
+                  'start of the chunk) lets the comparison run past the input', floor=2, unit='compare258 calls')
+    for fn in ('isal_deflate_body_base', 'isal_deflate_finish_base', 'isal_deflate_icf_body_hash_hist_base', 'isal_deflate_icf_finish_hash_hist_base', 'isal_deflate_icf_finish_hash_map_base', 'gen_icf_map_h1_base'):
+        f = mod.funcs.get(fn)
+        if f is None:
+            continue
+        for i in f.all_insns():
+            if i.op != 'call' or re.sub(r'\.\d+$', '', i.callee or '') != 'compare258':
+                continue
+            ml = i.args[2][1]
+            if re.match(r'^\d+$', ml):
+                continue
+            RC.instance()
+            d = f.defs.get(irrules._strip(f, ml))
+            ok, why = False, 'max_length is not a pointer difference'
+            if d is not None and d.op == 'sub':
+                a, b = f.defs.get(d.ops[0]), f.defs.get(d.ops[1])
+                if a is not None and b is not None and a.op == 'ptrtoint' and b.op == 'ptrtoint':
+                    ok = b.ops[0] == i.args[1][1]
+                    why = 'max_length is %s - %s, but the bytes are read at %s' % (a.ops[0], b.ops[0], i.args[1][1])
+            RC.check(ok, mod.where(f, i), '%s: %s: compare258 may read up to that many bytes beyond the position it starts at, i.e. past start_in + avail_in' % (fn, why), key='M-COMPARE-BOUND|%s|%s' % (fn, i.line or 0),
+                     sample='%s: max_length = end_in - str2' % fn)
 
 
 def main(tier):
